@@ -220,6 +220,23 @@ def fn_roi(spec, rec):
             if abs(c3[0] - cx) > 1e-8 * (G.scale_of(rs) + abs(cx) + 1) or abs(c3[1] - cy) > 1e-8 * (G.scale_of(rs) + abs(cy) + 1):
                 raise Mismatch("rotate_to-moved-centre/" + rs["k"], {"got": [float(c3[0]), float(c3[1])], "expected": [cx, cy]})
 
+    # 7. a polygon object that is emptied and drawn again (reset + add_point) behaves like a new polygon with those vertices
+    if rs["k"] == "poly" and rot is not None and spec.get("redraw") is not None:
+        import glue.core.roi as R2
+        work.reset()
+        for vx_, vy_ in zip(rs["vx"], rs["vy"]):
+            work.add_point(vx_, vy_)
+        fresh = R2.PolygonalROI(list(rs["vx"]), list(rs["vy"]))
+        ang = spec["redraw"]
+        work.rotate_to(ang)
+        fresh.rotate_to(ang)
+        if not (np.allclose(work.vx, fresh.vx, rtol=1e-9, atol=1e-9 * G.scale_of(rs)) and np.allclose(work.vy, fresh.vy, rtol=1e-9, atol=1e-9 * G.scale_of(rs))):
+            raise Mismatch("redrawn-polygon-rotates-differently-from-a-new-one", {"asked": ang, "earlier": rot, "got": [list(map(float, work.vx)), list(map(float, work.vy))],
+                                                                                  "fresh": [list(map(float, fresh.vx)), list(map(float, fresh.vy))]})
+        if abs(work.theta - ang) > 0:
+            raise Mismatch("rotate_to-theta-not-recorded/after-redraw", {"theta": float(work.theta), "asked": ang})
+        rec.label("poly:redrawn")
+
     near = ok & (np.abs(d) <= 0.1 * G.min_size(rs) * 1.0001)
     both = bool((near & (d > 0)).any() and (near & (d < 0)).any())
     rec.nt(both and (not has_theta(rs) or rs.get("theta", 0.0) != 0.0))
@@ -387,6 +404,7 @@ def roi_cases(draw):
             "idx": draw(st.lists(st.integers(0, 500), min_size=1, max_size=3)),
             "move": draw(st.one_of(st.none(), pt)), "rotate": draw(st.one_of(st.none(), gen.angle())),
             "rotate_more": draw(st.one_of(st.just([]), st.lists(gen.angle(), min_size=1, max_size=3))),
+            "redraw": draw(st.one_of(st.none(), gen.angle())),
             "transform_restored": draw(st.booleans())}
     if rs["k"] in ("xrange", "yrange") and spec["move"] is not None:
         spec["move"] = spec["move"][:1]
